@@ -26,6 +26,7 @@ import (
 	"go.uber.org/zap"
 
 	"github.com/mimiro-io/datahub/internal/conf"
+	"github.com/mimiro-io/datahub/internal/verifhook"
 )
 
 const datasetCore = "core.Dataset"
@@ -128,6 +129,7 @@ func (dsm *DsManager) CreateDataset(name string, createDatasetConfig *CreateData
 	if err != nil {
 		return nil, err
 	}
+	verifhook.Point("create.afterNextID")
 	if createDatasetConfig != nil {
 		ds.ProxyConfig = createDatasetConfig.ProxyDatasetConfig
 		ds.PublicNamespaces = createDatasetConfig.PublicNamespaces
@@ -139,6 +141,7 @@ func (dsm *DsManager) CreateDataset(name string, createDatasetConfig *CreateData
 	if err != nil {
 		return nil, err
 	}
+	verifhook.Point("create.afterRecord")
 
 	dsm.store.datasets.Store(name, ds)
 	dsm.store.datasetsByInternalID.Store(ds.InternalID, ds)
@@ -155,6 +158,7 @@ func (dsm *DsManager) CreateDataset(name string, createDatasetConfig *CreateData
 	if err != nil {
 		return ds, err
 	}
+	verifhook.Point("create.afterMeta")
 
 	// making sure the event is triggered
 	dsm.eb.Emit(context.Background(), "dataset.core.Dataset", nil)
@@ -196,6 +200,7 @@ func (dsm *DsManager) UpdateDataset(name string, config *UpdateDatasetConfig) (*
 		if err != nil {
 			return nil, err
 		}
+		verifhook.Point("rename.afterMove")
 
 		// update in local cache
 		dsm.store.datasets.Delete(name)
@@ -223,6 +228,7 @@ func (dsm *DsManager) UpdateDataset(name string, config *UpdateDatasetConfig) (*
 		if err != nil {
 			return nil, err
 		}
+		verifhook.Point("rename.afterOldMetaDeleted")
 		entity.IsDeleted = false
 		entity.ID = dsInfo.DatasetPrefix + ":" + newName
 		entity.Properties[dsInfo.NameKey] = newName
@@ -230,6 +236,7 @@ func (dsm *DsManager) UpdateDataset(name string, config *UpdateDatasetConfig) (*
 		if err != nil {
 			return nil, err
 		}
+		verifhook.Point("rename.afterNewMeta")
 		dsm.eb.Emit(context.Background(), "dataset.core.Dataset", nil)
 	}
 	return ds, nil
@@ -260,6 +267,7 @@ func (dsm *DsManager) DeleteDataset(name string) error {
 	if err != nil {
 		return err
 	}
+	verifhook.Point("delete.afterRecordDelete")
 
 	// record we deleted it.
 	// swap map out with new modified copy of map to avoid concurrent read/write issues which can occur if
@@ -274,6 +282,7 @@ func (dsm *DsManager) DeleteDataset(name string) error {
 	if err != nil {
 		return err
 	}
+	verifhook.Point("delete.afterDeletedSet")
 
 	dsm.eb.UnregisterTopic(name) // unregister event-handler on this topic. Note that subscriptions are left.
 
@@ -288,6 +297,7 @@ func (dsm *DsManager) DeleteDataset(name string) error {
 	if err != nil {
 		return err
 	}
+	verifhook.Point("delete.afterMeta")
 	dsm.eb.Emit(context.Background(), "dataset.core.Dataset", nil)
 
 	// fixme: schedule background job for cleaning up
